@@ -40,11 +40,25 @@ func NewByteReader(r io.Reader) ByteReader {
 
 type byteReader struct {
 	io.Reader
+	pending error // error that arrived together with the last byte, reported by the next call
 }
 
 func (r *byteReader) ReadByte() (byte, error) {
+	if nil != r.pending {
+		err := r.pending
+		r.pending = nil
+		return 0, err
+	}
 	var buff = [1]byte{}
-	_, err := r.Read(buff[:])
+	n, err := r.Read(buff[:])
+	for 0 == n && nil == err {
+		// a reader may return (0, nil); that is not a byte
+		n, err = r.Read(buff[:])
+	}
+	if n > 0 && nil != err {
+		// io.ByteReader: an error means no byte was consumed. deliver the byte now, the error next time
+		r.pending, err = err, nil
+	}
 	return buff[0], err
 }
 
